@@ -236,6 +236,7 @@ func (s *shard[K, V]) drainStripe(p *sieveTinyLFU[K, V], st *readStripe) {
 	}
 	for ; h < t; h++ {
 		if v := st.buf[h&readSlotMask].Swap(0); v != 0 {
+			verifEv(verifEvSample, 0, int64(v), 0, nil)
 			p.incrementFrequency(v)
 		}
 	}
